@@ -25,6 +25,7 @@ type LifecycleInput struct {
 }
 
 type lcRun struct {
+	blockedFetch           bool // replication positions are realised as a fetch that cannot complete (provider cut off)
 	sharedOpts             bool // one CreateDBOptions value reused for the sibling and the main database
 	in                     *LifecycleInput
 	res                    *Result
@@ -124,6 +125,10 @@ func (r *lcRun) setup(tag string) error {
 	if err != nil {
 		return err
 	}
+	// two entries: the head the instance is given links to an entry only the remote peer holds
+	if _, err := rr.S.(orbitdb.KeyValueStore).Put(ctx, "remote0", []byte("remote0")); err != nil {
+		return err
+	}
 	op, err := rr.S.(orbitdb.KeyValueStore).Put(ctx, "remote", []byte("remote"))
 	if err != nil {
 		return err
@@ -211,7 +216,13 @@ func (r *lcRun) position(w, rp, l int) {
 			}
 		}
 	}
-	if rp > 1 {
+	if rp > 1 && r.blockedFetch {
+		// the provider of the blocks is gone: the replication started here stays inside its fetch until it is cancelled
+		r.w.Cut(r.inst.P.Name, r.rem.P.Name)
+		_ = r.main.S.Sync(ctx, []ipfslog.Entry{copyEntry(r.remoteHead)})
+		time.Sleep(30 * time.Millisecond)
+		r.res.Stats["closed_with_fetch_blocked"]++
+	} else if rp > 1 {
 		for i := 1; i < rp; i++ {
 			h.ParkAt(rPoints[i].point, r.mine(rPoints[i].arg))
 		}
@@ -239,6 +250,7 @@ func (r *lcRun) position(w, rp, l int) {
 
 func (r *lcRun) run(b Behaviour, idx int) {
 	r.sharedOpts = idx%2 == 1
+	r.blockedFetch = idx%3 == 2
 	if err := r.setup(fmt.Sprintf("lc%d", idx)); err != nil {
 		r.res.Inconclusive = append(r.res.Inconclusive, b.ID+": setup: "+err.Error())
 		return
